@@ -95,7 +95,7 @@ class Model(HoloPyObject):
                       for key, val in self._maps.items()}
 
     def _iteritems(self):
-        keys = ['_dummy_scatterer', 'theory', '_parameters',
+        keys = ['_dummy_scatterer', 'theory', 'constraints', '_parameters',
                 '_parameter_names', '_maps']
         for key in keys:
             item = getattr(self, key)
@@ -112,7 +112,8 @@ class Model(HoloPyObject):
         dummy_scatterer = fields['_dummy_scatterer']
         scatterer_parameters = read_map(maps['scatterer'], parameters)
         scatterer = dummy_scatterer.from_parameters(scatterer_parameters)
-        kwargs = {'scatterer': scatterer, 'theory': fields['theory']}
+        kwargs = {'scatterer': scatterer, 'theory': fields['theory'],
+                  'constraints': fields.get('constraints', [])}
         for key in ['optics', 'model']:
             kwargs.update(read_map(maps[key], parameters))
         model = cls(**kwargs)
